@@ -27,9 +27,8 @@ def gen_and_run(tier, seed):
         cases += mc.exhaustive(kk, mc.CLASSES, False, rng, asrt_every=4)
     nexh3 = len(cases)
     b4 = mc.exhaustive(4, ["mixin", "light"] if tier == "quick" else mc.CLASSES, False, rng, asrt_every=5, rich=False)
-    if tier == "quick":
-        rng.shuffle(b4)
-        b4 = b4[:40000]
+    rng.shuffle(b4)
+    b4 = b4[:40000] if tier == "quick" else b4[:250000]
     cases += b4
     obs = mc.run_impl(cases, PROP)
     hs = mc.random_histories(rng, 400 if tier == "quick" else 5000, 6 if tier == "quick" else 9,
@@ -47,7 +46,7 @@ def gen_and_run(tier, seed):
                     "nodes x every call (%s); random fault-free histories on live objects. The observed outcome and the "
                     "complete link map of the universe are compared with the pointwise specification (what changes and "
                     "that nothing else does; refusal iff). non-trivial = the call changed a link or was refused"
-                    % ("40000 sampled, 2 classes" if tier == "quick" else "all, 5 classes"),
+                    % ("40000 sampled, 2 classes" if tier == "quick" else "250000 sampled, 5 classes"),
             "exhaustive": True, "distribution": dist}
     return cases, obs, meta
 
